@@ -356,6 +356,63 @@ fn verify_sweeps<V: Variant>(ctx: &mut Ctx, pk: &V::Pk, dmax: usize, tailbits: u
     t.into_part(ctx, part, "true", "false");
 }
 
+/// verify on (public key, signature) pairs engineered so that the spectrum verify has to invert carries an extreme
+/// pattern: s2 = 1 and h = c - t with NTT(t) equal to q-1 on an aligned block of slots and 0 elsewhere (blocks of
+/// every power-of-two size at every offset; also the complement). The inverse transform then sees the largest
+/// possible partial sums next to zeros (lazy reductions, narrow accumulators); the verdict is a plain false.
+fn verify_extreme_spectra<V: Variant>(ctx: &mut Ctx) {
+    let n = V::N;
+    let salt = [0x42u8; 40];
+    let msg = b"extreme spectrum";
+    let mut sm = salt.to_vec();
+    sm.extend_from_slice(msg);
+    let c = crate::refmodel::keccak::hash_to_point(&sm, n, None);
+    let mut x = vec![0u32; n];
+    x[1] = 1;
+    let slot_root: Vec<i64> = falcon_rust::verif_hooks::felt_fft(&x).iter().map(|&v| v as i64).collect();
+    let inv = crate::refmodel::zq::inverse_table();
+    let ninv = inv[(n as i64 % 12289) as usize];
+    let ipow: Vec<Vec<i64>> = slot_root.iter().map(|&w| { let wi = inv[w as usize]; let mut v = vec![1i64; n]; for j in 1..n { v[j] = v[j - 1] * wi % 12289; } v }).collect();
+    let mut one = vec![0i64; n];
+    one[0] = 1;
+    let body = crate::refmodel::codec::compress(&one, crate::refmodel::sig_len(n) - 41).unwrap();
+    let mut jobs: Vec<(usize, usize, bool)> = vec![];
+    let mut size = 1;
+    while size <= n {
+        for off in (0..n).step_by(size) {
+            if size >= 8 || off < 16 {
+                jobs.push((off, size, false));
+                if size >= 16 && size < n {
+                    jobs.push((off, size, true));
+                }
+            }
+        }
+        size *= 2;
+    }
+    let t = jobs
+        .par_iter()
+        .map(|&(off, size, complement)| {
+            let mut t = Tally::default();
+            let inside = |k: usize| (k >= off && k < off + size) != complement;
+            // t = INTT(T), T = q-1 on the chosen slots
+            let tt: Vec<i64> = (0..n).map(|j| { let mut acc = 0i64; for k in 0..n { if inside(k) { acc += 12288 * ipow[k][j] % 12289; } } acc % 12289 * ninv % 12289 }).collect();
+            let h: Vec<i64> = (0..n).map(|j| (c[j] - tt[j]).rem_euclid(12289)).collect();
+            let pkb = keycodec::pk_encode(&h);
+            let mut sigb = vec![0x50 | keycodec::logn(n)];
+            sigb.extend_from_slice(&salt);
+            sigb.extend_from_slice(&body);
+            match V::pk_from_bytes(&pkb) {
+                Ok(pk) => verify_case::<V>(&mut t, &pk, msg, &sigb),
+                Err(_) => {}
+            }
+            t
+        })
+        .reduce(Tally::default, reduce);
+    let mut part = Part::new(&format!("verify_extreme_spectra_{}", n), "verify with s2 = 1 and a public key chosen so that the spectrum of s1 = c - s2 h is q-1 on one aligned block of transform slots (every power-of-two size >= 8 at every offset, and the complements) and 0 elsewhere: returns a boolean, never panics");
+    part.exhaustive = true;
+    t.into_part(ctx, part, "true", "false");
+}
+
 /// verify under every scripted shape of HashToPoint's XOF stream (the message decides the stream; the hook lets
 /// the harness choose it): a boolean, never a panic
 fn verify_under_scripted_hash<V: Variant>(ctx: &mut Ctx, pk: &V::Pk, valid_sig: &[u8], tier: Tier) {
@@ -404,6 +461,7 @@ fn one_variant<V: Variant>(ctx: &mut Ctx, tier: Tier) {
         verify_sweeps::<V>(ctx, &pk, 24, 10);
     }
     verify_under_scripted_hash::<V>(ctx, &pk, &valid_sig, tier);
+    verify_extreme_spectra::<V>(ctx);
     ctx.sample(json!({"variant": V::N, "decoder":"Signature::from_bytes","len":valid_sig.len(),"header":format!("{:02x}", valid_sig[0]),"result":"Ok"}));
 }
 
